@@ -306,37 +306,20 @@ pub fn expect_sets(buf: &[u8], pkt: &MPkt) -> Vec<ExpSet> {
                         _ => unreachable!(),
                     });
                 } else {
-                    // The library's public shape holds one template per set. Listed defect:
-                    // the first record swallows what follows.
+                    // The library's public shape holds one template per set. Listed finding: the
+                    // first record is reported, the further records stay verbatim in its padding
+                    // (they are learned all the same).
                     match d {
-                        TDef::Tpl { field_count, .. } => {
-                            // greedy: every following 4/8-byte group is read as a field
-                            let mut fields = Vec::new();
-                            let mut pos = 4;
-                            loop {
-                                if body.len() - pos < 4 {
-                                    break;
-                                }
-                                let t = u16::from(body[pos]) << 8 | u16::from(body[pos + 1]);
-                                let l = u16::from(body[pos + 2]) << 8 | u16::from(body[pos + 3]);
-                                if t > 32767 {
-                                    if body.len() - pos < 8 {
-                                        break;
-                                    }
-                                    let en = u32::from(body[pos + 4]) << 24
-                                        | u32::from(body[pos + 5]) << 16
-                                        | u32::from(body[pos + 6]) << 8
-                                        | u32::from(body[pos + 7]);
-                                    fields.push(FTplField { typ: t - 32768, len: l, ent: Some(en), name: "Enterprise".into() });
-                                    pos += 8;
-                                } else {
-                                    fields.push(FTplField { typ: t, len: l, ent: None, name: ipfix_name(t) });
-                                    pos += 4;
-                                }
-                            }
+                        TDef::Tpl { field_count, fields } => {
+                            let first_len: usize = 4 + fields.iter().map(|f| if f.ent.is_some() { 8 } else { 4 }).sum::<usize>();
                             e.defective.push((
                                 "KF-C05-multi-template-set".into(),
-                                FSet::IpTpl { id: *id, field_count: *field_count, fields, pad: body[pos..].to_vec() },
+                                FSet::IpTpl {
+                                    id: *id,
+                                    field_count: *field_count,
+                                    fields: fields.iter().map(|f| tplf(proto, f)).collect(),
+                                    pad: body[first_len..].to_vec(),
+                                },
                             ));
                         }
                         TDef::IpOpt { field_count, scope_count, fields } => {
